@@ -390,7 +390,10 @@ where
         } else {
             let mut iter = self.bytes_mut_iter();
             let _ = iter.nth(len - 1);
-            L::max_value().emplace(iter.data.unwrap()).unwrap();
+            // Terminate the chain after the first `len` items, if there is anything after them.
+            if let Some(data) = iter.data {
+                L::zero().emplace(data).unwrap();
+            }
         }
     }
 }
